@@ -456,6 +456,14 @@ class SimNet(object):
         self.log.append(("connect", now, host, port))
         for h in self.connect_hooks:
             h(att)
+        if outcome == "refuse_sync":
+            # an endpoint that fails before returning (name resolution error, exception in the endpoint factory):
+            # the Deferred handed back has already fired
+            att.outcome = "refused"
+            att.done_t = now
+            self.log.append(("refused", now, host, port))
+            from twisted.internet.defer import fail
+            return fail(Failure(ConnectionRefusedError("simnet: %s:%s refused at once" % (host, port))))
         if lat is None:
             lat = self.latency()
         dc_box = []
